@@ -419,6 +419,7 @@ def oracle(c, obs):
 
 
 def match_finding(c, what):
+    # fixed by fff6083 (status "fixed" suppresses nothing: a revert is reported as a VIOLATION)
     if "[stale savepoint:" in what:
         return "C27-failed-rollback-leaves-savepoint"
     return None
